@@ -28,6 +28,14 @@ THEOREMS = [
     "C25_fifo_no_barging",
     "C25_fifo_progress",
     "C25_eventually_enters",
+    "C25_key_drains",
+    "C25_cancelled_waiter_leaves",
+    "C25_refines_ticket_lock",
+    "C25_refines_ticket_lock_step",
+    "C25_spec_empty_iff",
+    "C25_fifo_no_overtaking",
+    "C25_source_shape_ext",
+    "C25_asyncio_lock_shape",
 ]
 EXPLANATION = (
     "Lean LTS of KeyedLock over asyncio.Lock (WfModel/KeyedLock.lean): per key, `_locks[k]` (locked bit + FIFO of "
@@ -39,7 +47,15 @@ EXPLANATION = (
     "injected at every suspension point, and after every primitive the observable state (_locks keys, _refs, _locked, who is "
     "inside, FIFO order and future states of waiters) is diffed against the model driver. Monitors check mutual exclusion, "
     "refcounts, cleanup, no lost wake-up, FIFO/no barging, bounded waiting and key independence directly on the real object, "
-    "plus free-running asyncio workloads under the virtual-time loop."
+    "plus free-running asyncio workloads under the virtual-time loop. Extension: the model is proved to refine a per-key FIFO "
+    "ticket lock without futures, wake-ups and refcounts (WfModel/KeyedLockSpec.lean; C25_refines_ticket_lock*), every key can "
+    "be drained by fairness steps alone within holders+2*waiters steps from every reachable state (C25_key_drains), a cancelled "
+    "waiter leaves at its next step (C25_cancelled_waiter_leaves), no overtaking among uncancelled waiters over whole histories "
+    "(C25_fifo_no_overtaking). After every primitive the real object's state is also abstracted (holder, FIFO of waiting/"
+    "cancelled/grant-cancelled) and compared with both absK(model) and the specification run on its own by the driver "
+    "(`c25xabs`), together with the drain measure; the constructor, the lazy main lock, the create/delete guards and the "
+    "statements of the interpreter's asyncio.Lock that the model copies are re-extracted (C25_source_shape_ext, "
+    "C25_asyncio_lock_shape)."
 )
 LEVEL_TEXT = "proof (Lean 4) of the model + per-action correspondence with the real KeyedLock + direct monitors"
 ASSUMPTIONS = [
@@ -58,7 +74,9 @@ ASSUMPTIONS = [
 TRUSTED_EXTRA = [
     "harness/sloop.py: scripted scheduler over asyncio.BaseEventLoop (CPython private attributes _ready, Handle._run, "
     "Task._fut_waiter, Task._must_cancel, Lock._locked, Lock._waiters)",
-    "harness/gen/keyed_lock.py: AST extraction of refcount constants and control shape of KeyedLock.__call__",
+    "harness/gen/keyed_lock.py: AST extraction of refcount constants and control shape of KeyedLock.__call__, of "
+    "__init__/_get_main_lock, and structural comparison of asyncio.locks.Lock.acquire/release/_wake_up_first (interpreter "
+    "source via inspect) with the statements the model is written after",
 ]
 
 MODEL = "keyedlock"
@@ -66,6 +84,21 @@ MODEL = "keyedlock"
 
 def AID(tid: int, depth: int) -> int:
     return tid * 4 + depth
+
+
+_TW = {"P": "w", "W": "w", "C": "c", "X": "g"}
+
+
+def abs_line(ent: tuple | None) -> str:
+    """the real object's state of one key seen as a state of the ticket-lock specification
+    (WfModel/KeyedLockSpec.lean): holder, FIFO queue with waiting / cancelled / grant-cancelled; plus the drain measure"""
+    if ent is None:
+        t, d = "h=-:q=", 0
+    else:
+        _rf, _lk, ins, q = ent
+        t = "h=%s:q=%s" % (",".join(map(str, ins)) if ins else "-", ",".join(f"{a}/{_TW.get(st, '?')}" for a, st in q))
+        d = len(ins) + 2 * len(q)
+    return f"abs {t} spec {t} drain={d}"
 
 
 # --------------------------------------------------------------------------
@@ -281,6 +314,22 @@ class Scenario:
         self.ops.append(f"{kind}|{k}|{aid}")
         self.impl.append(f"{status} {s}")
         self.count("prim:" + kind)
+        # the same state through the abstraction: compared with absK(model) and with the specification run on its own
+        self.ops.append(f"c25xabs|{k}")
+        self.impl.append(abs_line(struct.get(k)))
+        self.count("probe:c25xabs")
+        if kind == "resume" and prev and status == "ok":
+            st0 = dict((a, s_) for a, s_ in prev[3]).get(aid)
+            if st0 in ("C", "X"):
+                ent1 = struct.get(k)
+                ins1 = tuple(ent1[2]) if ent1 else ()
+                q1 = [a for a, _ in ent1[3]] if ent1 else []
+                if aid in q1:
+                    self.flag("C25/cancelled_waiter_stays", f"cancelled waiter {aid} (future state {st0}) ran but is still queued on key {k}")
+                if ins1 != tuple(prev[2]):
+                    self.flag("C25/cancelled_waiter_changed_holder", f"the step of cancelled waiter {aid} on key {k} changed who is inside: "
+                              f"{list(prev[2])} -> {list(ins1)}")
+                self.count("monitor:cancelled_waiter_leaves")
         if kind == "enter" and status == "ok":
             ent = struct.get(k)
             if ent and aid in ent[2]:
@@ -506,6 +555,29 @@ class Scenario:
         return res
 
     def drain(self, rng: random.Random | None) -> None:
+        # C25_key_drains: with no newcomers (every task has one key and has started) each key empties within
+        # holders + 2*waiters successful exit/resume primitives
+        single = bool(self.tasks) and all(len(r.keys) == 1 for r in self.tasks.values())
+        struct0, _ = self.snap()
+        m0 = {k: len(e[2]) + 2 * len(e[3]) for k, e in struct0.items()}
+        n0 = len(self.ops)
+        try:
+            self._drain(rng)
+        finally:
+            if single:
+                cnt: dict[int, int] = {}
+                for op, im in zip(self.ops[n0:], self.impl[n0:]):
+                    parts = op.split("|")
+                    if len(parts) == 3 and parts[0] in ("exit", "resume") and im.startswith("ok "):
+                        cnt[int(parts[1])] = cnt.get(int(parts[1]), 0) + 1
+                for k, c in cnt.items():
+                    if c > m0.get(k, 0):
+                        self.flag("C25/drain_bound", f"key {k} needed {c} exit/resume steps to drain, more than holders+2*waiters="
+                                  f"{m0.get(k, 0)} at the start of the drain")
+                if m0:
+                    self.count("monitor:drain_bound_scenarios")
+
+    def _drain(self, rng: random.Random | None) -> None:
         for _ in range(100000):
             en = self.enabled()
             if en:
